@@ -76,7 +76,7 @@ def run_validate(ctx, nscen, thorough):
             if rng.random() < 0.4:
                 rules.append(rng.choice(HAND))
             else:
-                doc, prog = gen.gen_pair(rng, {'cycles': 0.0})
+                doc, prog = gen.gen_pair(rng, {'cycles': 0.0, 'types': False, 'functions': False})
                 rules.append(gen.render_file(prog))
                 docs.append(doc)
         while len(docs) < nd:
@@ -202,7 +202,7 @@ def run_test_cases(ctx, n):
     rng = random.Random(ctx.seed * 41 + 13)
     jobs, meta, scen = [], [], []
     for k in range(n):
-        rules = rng.choice(HAND) if rng.random() < 0.5 else gen.render_file(gen.gen_pair(rng, {'cycles': 0.0})[1])
+        rules = rng.choice(HAND) if rng.random() < 0.5 else gen.render_file(gen.gen_pair(rng, {'cycles': 0.0, 'types': False, 'functions': False})[1])
         docs = [rng.choice(HAND_DOCS) if rng.random() < 0.5 else gen.gen_doc(rng) for _ in range(rng.choice([2, 3, 4]))]
         cases = [{'name': 'c%d' % i, 'input': dd, 'expectations': {'rules': {'r0': rng.choice(['PASS', 'FAIL', 'SKIP'])}}} for i, dd in enumerate(docs)]
         d = os.path.join(ctx.wd, 'tc%d' % k)
